@@ -21,7 +21,7 @@ open Pyro Pyro.Values
 
 /-- The source as it is now passes `ext_hook` on both msgpack paths, handles class dicts on both
     (object_hook inside `unpackb`, or `recreate_classes` afterwards), and `MarshalSerializer.dumpsCall`
-    accepts `kwargs=None`.  (On a tree where this is false the theorems below do not apply; see
+    accepts `kwargs=None`, and marshal treats a list argument like a list result.  (On a tree where this is false the theorems below do not apply; see
     `C01_symmetric_needs_ext_hook` and `C01_batch_needs_kwargs_guard` for what goes wrong.) -/
 theorem src_good : srcCfg.good = true := by decide
 
@@ -35,7 +35,7 @@ theorem C01_fixed_point (s : Ser) (w : Val) (h : nf s w = true) :
   have hr := res_fixed srcCfg src_good s w h
   cases s with
   | serpent => obtain ⟨a, b⟩ := sym_serpent srcCfg w; exact ⟨hr, a.trans hr, b.trans hr⟩
-  | marshal => obtain ⟨a, b⟩ := sym_marshal srcCfg w; exact ⟨hr, a.trans hr, b.trans hr⟩
+  | marshal => obtain ⟨a, b⟩ := sym_marshal srcCfg src_good w; exact ⟨hr, a.trans hr, b.trans hr⟩
   | json => obtain ⟨a, b⟩ := sym_json srcCfg w; exact ⟨hr, a.trans hr, b.trans hr⟩
   | msgpack => obtain ⟨a, b⟩ := sym_msgpack srcCfg src_good w; exact ⟨hr, a.trans hr, b.trans hr⟩
 
@@ -54,7 +54,7 @@ theorem C01_symmetric (s : Ser) (v : Val) :
     argPath srcCfg s v = resPath s v ∧ kwPath srcCfg s v = resPath s v := by
   cases s with
   | serpent => exact sym_serpent srcCfg v
-  | marshal => exact sym_marshal srcCfg v
+  | marshal => exact sym_marshal srcCfg src_good v
   | json => exact sym_json srcCfg v
   | msgpack => exact sym_msgpack srcCfg src_good v
 
@@ -77,7 +77,7 @@ theorem C01_idempotent (s : Ser) (v w : Val) (hv : pyval v = true) (h : resPath 
 theorem C01_batch_kwargs_none (vargs : Val) :
     callRT srcCfg .marshal vargs .none = callRT srcCfg .marshal vargs (.dict .nil) := by
   have hk : srcCfg.kwNoneSafe = true := by decide
-  simp [callRT, hk, marshalConvVals]
+  simp [callRT, hk, marshalTopVals]
 
 /-- **C01_compression_transparent.**  The payload handed to `loads` is byte-for-byte the payload
     `dumps` produced, whether `config.COMPRESSION` is on or off, for every payload length (both
@@ -103,20 +103,31 @@ def bigInt : Val := .int 1180591620717411303424      -- 2^70
 theorem C01_symmetric_needs_ext_hook (c : Cfg) (h1 : c.callExtHook = false) (h2 : c.resExtHook = true) :
     argPath c .msgpack bigInt = .ok (.ext 0x31 (intToAscii 1180591620717411303424)) ∧
     resRT c .msgpack bigInt = .ok bigInt ∧ argPath c .msgpack bigInt ≠ resRT c .msgpack bigInt := by
-  obtain ⟨x1, x2, o1, o2, r1, r2, k⟩ := c
+  obtain ⟨x1, x2, o1, o2, r1, r2, k, l1, l2⟩ := c
   simp only at h1 h2
   subst h1; subst h2
-  cases o1 <;> cases o2 <;> cases r1 <;> cases r2 <;> cases k <;> decide
+  cases o1 <;> cases o2 <;> cases r1 <;> cases r2 <;> cases k <;> cases l1 <;> cases l2 <;> decide
 
 /-- Without the `kwargs=None` guard in `MarshalSerializer.dumpsCall` every batch / attribute call
     fails on the client with AttributeError, whatever the calls are (unless an argument already
     fails to convert). -/
 theorem C01_batch_needs_kwargs_guard (c : Cfg) (h : c.kwNoneSafe = false) (calls : Vals) :
     callRT c .marshal (.list calls) .none = .error .attribute ∨
-    ∃ e, marshalConvList calls = .error e := by
-  cases hc : marshalConvList calls with
+    ∃ e, marshalTopList c.callListItems calls = .error e := by
+  cases hc : marshalTopList c.callListItems calls with
   | error e => exact Or.inr ⟨e, rfl⟩
   | ok vs => left; simp [callRT, hc, h]
+
+def uuidList : Val := .list (.cons (.uuid [53]) .nil)       -- [uuid] whose text is "5"
+
+/-- If only `dumps` converts the items of a list (and `dumpsCall` does not), a list holding a uuid
+    returns as a list of text but cannot be sent as an argument at all. -/
+theorem C01_symmetric_needs_list_items_on_both_paths (c : Cfg) (h1 : c.resListItems = true) (h2 : c.callListItems = false) :
+    resRT c .marshal uuidList = .ok (.list (.cons (.str [53]) .nil)) ∧ argPath c .marshal uuidList = .error .value := by
+  obtain ⟨x1, x2, o1, o2, r1, r2, k, l1, l2⟩ := c
+  simp only at h1 h2
+  subst h1; subst h2
+  constructor <;> rfl
 
 /-! ### obligations about facts extracted from the current source (PyroModel/Gen/C01.lean) -/
 
